@@ -305,7 +305,9 @@ func NewBackend(c BCfg, keys *KeyTable) Backend {
 		case "sharded":
 			f := cache.NewFailover(func(fc *cache.FailoverConfig) {
 				c.apply(&fc.BackendConfig)
-				fc.Name, fc.Stats = c.Name, c.Stats // (documented: the default backend takes name, logger and stats of the failover)
+				// name and stats tracker are given to the failover only: its default backend reports under them (C18)
+				fc.BackendConfig.Name, fc.BackendConfig.Stats = "", nil
+				fc.Name, fc.Stats = c.Name, c.Stats
 				fc.MaxStaleness = c.ViaMS
 				fc.UpdateTTL, fc.FailedUpdateTTL = 3*time.Second, 7*time.Second
 			})
@@ -313,6 +315,7 @@ func NewBackend(c BCfg, keys *KeyTable) Backend {
 		case "shardedOf":
 			f := cache.NewFailoverOf[int](func(fc *cache.FailoverConfigOf[int]) {
 				c.apply(&fc.BackendConfig)
+				fc.BackendConfig.Name, fc.BackendConfig.Stats = "", nil
 				fc.Name, fc.Stats = c.Name, c.Stats
 				fc.MaxStaleness = c.ViaMS
 				fc.UpdateTTL, fc.FailedUpdateTTL = 3*time.Second, 7*time.Second
